@@ -793,6 +793,25 @@ class Explorer:
             return t.as_long()
         return None
 
+    def determined_int(self, t):
+        """the value of an integer term if the path condition DETERMINES it (a model gives a candidate, a second query shows that no other
+        value is possible); None otherwise.  Used where the code indexes a constant table with an expression such as n % 4."""
+        v = self.concrete_int(t)
+        if v is not None:
+            return v
+        hyps = list(self.path.hyps)
+        r, m = check_sat(hyps, timeout_ms=self.branch_timeout_ms, want_model=True, use_cvc5=False)
+        if r != "sat" or m is None:
+            return None
+        try:
+            cand = m.eval(t, model_completion=True)
+        except Exception:
+            return None
+        if not z3.is_int_value(cand):
+            return None
+        r2, _ = check_sat(hyps + [t != cand], timeout_ms=self.branch_timeout_ms, use_cvc5=False)
+        return cand.as_long() if r2 == "unsat" else None
+
     def branch(self, c):
         c = z3.simplify(c)
         if z3.is_true(c):
@@ -835,6 +854,12 @@ class Explorer:
             try:
                 body(self)
             except Infeasible:
+                # the path turned out not to exist (e.g. a loop invariant that is false contradicts the state it is assumed in).  Obligations that
+                # were stated BEFORE that point carry their own snapshot of the hypotheses and remain meaningful -- in particular the entry
+                # obligations of the very invariant whose assumption made the path vanish -- so they are kept and decided like any other
+                if self.path.call_obligations:
+                    self.path.tags["ended-infeasible"] = True
+                    paths.append(self.path)
                 continue
             except PathEnd:
                 pass
